@@ -41,6 +41,9 @@ CODES = {
     103: 'a shard-manager call did not return within the watchdog (deadlock / hang)',
     104: 'after everything finished a fresh request failed or hung (shards cannot be loaded again)',
     105: 'a request returned an error other than the clean "already closed" one',
+    107: 'a real request handler (insert / update / delete / search / shard info) did not return when the idle timer of its shard fired while it was inside its callback',
+    108: 'a real request handler returned an error when the idle timer of its shard fired while it was inside its callback',
+    109: 'after such a request the cleanup routine did not finish (the shard was not unloaded)',
     106: 'two callbacks ran at once on one shard directory with different *shard.Shard objects (file opened twice)',
     201: 'observed outcome (who ran / clean errors / calls that never returned / number of loaded entries) is not an outcome of the lock-protocol model on the same schedule',
 }
@@ -64,3 +67,4 @@ LEVEL = {
     'technique': 'Coq proof (lock-order model: safety invariant and deadlock freedom by induction over arbitrary schedules, deadlock witness '
                  'for the pinned order) + forced-schedule enumeration of the real shard manager through pause hooks, compared with the model',
 }
+CFG['rule'] = CFG['rule'] + ' ' + 'Request handlers: the five real DoWithShard callbacks (RPCInsertPoints, RPCUpdatePoints, RPCDeletePoints, RPCSearchPoints, RPCGetShardInfo of a live ClusterNode, shardTimeout 1 s), one child process each: the request is parked at do:running until the idle timer has fired and the cleanup routine stands queued on the write lock of the entry (goroutine dump), then released; it must return without error, the routine must finish and a fresh request must load the shard again (CRpc; the theorems assume callbacks that return, this validates the assumption for the callbacks the node really passes).'
